@@ -84,6 +84,9 @@ func (o *overlayEnviron) Set(name string, vr expand.Variable) error {
 	prev, inOverlay := o.values[normalized]
 	// Manipulation of a global var inside a function.
 	if o.funcScope && !vr.Local && !prev.Local {
+		if parent, ok := o.parent.(*overlayEnviron); ok && !vr.IsSet() && vr.Kind != expand.KeepValue {
+			return parent.unsetFromCallee(name)
+		}
 		// In a function, the parent environment is ours, so it's always read-write.
 		return o.parent.(expand.WriteEnviron).Set(name, vr)
 	}
@@ -114,6 +117,23 @@ func (o *overlayEnviron) Set(name string, vr expand.Variable) error {
 	// modifying the entire variable
 	vr.Local = prev.Local || vr.Local
 	o.values[normalized] = namedVariable{name, vr}
+	return nil
+}
+
+// unsetFromCallee unsets a variable on behalf of a function called from this scope.
+// Like in bash, if the variable is local to a calling function, it is removed
+// entirely rather than left unset, so that the variable it was shadowing
+// becomes visible again.
+func (o *overlayEnviron) unsetFromCallee(name string) error {
+	normalized := o.normalize(name)
+	prev, inOverlay := o.values[normalized]
+	if !inOverlay || !prev.Local {
+		return o.Set(name, expand.Variable{})
+	}
+	if prev.ReadOnly {
+		return fmt.Errorf("readonly variable")
+	}
+	delete(o.values, normalized)
 	return nil
 }
 
